@@ -543,6 +543,10 @@ def api_family():
     return srcs
 
 
+KERNEL_FUNCS = {"get_charnos", "_get_charno", "_get_line_start_charnos", "_get_position", "_lineno_col_offset",
+                "lineno", "col_offset", "string", "root", "start", "end"}
+
+
 def obs_api(mods, pattern, s):
     """what the wrappers return for (pattern, source); None if the search itself raises.
     If finditer works but a wrapper or a Match property raises, the result carries a "crash" entry
@@ -552,7 +556,14 @@ def obs_api(mods, pattern, s):
         with common.quiet():
             ms = list(pm.finditer(pattern, s))
             spans = [tuple(m.span) for m in ms]
-    except Exception:  # noqa -- matcher/compile problems are C12's business
+    except Exception as e:  # noqa -- matcher/compile problems are C12's business ...
+        tb, inner = e.__traceback__, []
+        while tb is not None:
+            inner.append(tb.tb_frame.f_code.co_name)
+            tb = tb.tb_next
+        if inner and inner[-1] in KERNEL_FUNCS:      # ... unless the offset arithmetic itself raised
+            return {"pattern": pattern_name(pattern), "source": s, "spans": [],
+                    "crash": f"finditer raised {type(e).__name__}: {e} in core.{inner[-1]}"[:300]}
         return None
     o = {"pattern": pattern_name(pattern), "source": s, "spans": spans,
          "pattern_kind": "sequence" if isinstance(pattern, list) else "node"}
@@ -1194,8 +1205,11 @@ def _check(run: common.Run):
                 api_fail.append({"pattern": o["pattern"], "source": o["source"], "problem": pr, "site": "pattern_matching"})
     for c in corpus:   # witnesses of `fixed:` entries must pass from now on
         if c.get("expect_findall") is not None:
-            with common.quiet():
-                got = mods["pattern_matching"].findall(c["pattern"], c["source"])
+            try:
+                with common.quiet():
+                    got = mods["pattern_matching"].findall(c["pattern"], c["source"])
+            except Exception as e:  # noqa
+                got = f"raised {type(e).__name__}: {e}"
             if got != c["expect_findall"]:
                 api_fail.append({"pattern": c["pattern"], "source": c["source"], "site": "pattern_matching",
                                  "problem": f"fixed witness {c['file']} fails again: findall = {got!r}, expected {c['expect_findall']!r}"})
